@@ -1,4 +1,5 @@
 import Proofs.Ledger.Bank
+import Proofs.Ledger.CoinsBank
 /-!
 # C18 — Transfers move exactly the requested amount or nothing
 
@@ -122,6 +123,26 @@ theorem balances_nonneg_all_histories (mt : ModTable) (b : Bank) (ops : List Op)
 /-- Zero and negative amounts never reach the keeper. -/
 theorem send_nonpositive_rejected (b : Bank) (s d : Addr) (x : Int) (hx : x ≤ 0) :
     msgSend b s d x = ⟨b, some .badMsg⟩ := by simp [msgSend, hx]
+
+/-! ### Canonical form with several denominations (C41's coin algebra)
+
+The ledger model above carries one denomination.  For the stored `sdk.Coins` values themselves:
+the debit `old.Sub(amt)` (taken only when `SafeSub` raised no flag) and the credit `old.Add(amt)`
+of canonical sets by a canonical amount are exact per denomination and canonical again. -/
+
+theorem credit_exact_canonical (old amt new : Coins) (ho : Canon old) (ha : Canon amt)
+    (h : Coins.safeAdd old amt = some new) :
+    Canon new ∧ ∀ d, Coins.sumOf new d = Coins.sumOf old d + Coins.sumOf amt d :=
+  credit_canonical old amt new ho ha h
+
+theorem debit_exact_canonical (old amt new : Coins) (ho : Canon old) (ha : Canon amt)
+    (h : Coins.safeSub old amt = some (new, false)) :
+    Canon new ∧ ∀ d, Coins.sumOf new d = Coins.sumOf old d - Coins.sumOf amt d :=
+  debit_canonical old amt new ho ha h
+
+theorem debit_refused_iff_uncovered (old amt d : Coins) (neg : Bool) (ho : Canon old) (ha : Canon amt)
+    (h : Coins.safeSub old amt = some (d, neg)) :
+    neg = true ↔ ∃ e, Coins.sumOf old e < Coins.sumOf amt e := debit_refused_iff old amt d neg ho ha h
 
 /-! ## Non-vacuity -/
 
